@@ -35,6 +35,9 @@ func c07Scenarios() []c07Scenario {
 		// the request brings the shadowed case of a choice: nothing may reach the device, with or without a fault
 		{Name: "choice-shadowed", Init: R0, Setup: []Op{A("ca1")}, Test: B("cb1")},
 		{Name: "shadowed-create", Init: R1, Setup: []Op{A("fa")}, Test: B("fa1")},
+		// the request is the cancellation: faults during the rollback, then the cancel is repeated
+		{Name: "cancel-update", Init: R0, Setup: []Op{A("fa"), B("fb")}, Test: Op{Intents: []IntentSpec{{Owner: "A", Prio: 10, Frag: "fb"}}, End: "cancel"}},
+		{Name: "cancel-create", Init: R1, Setup: []Op{A("fa")}, Test: Op{Intents: []IntentSpec{{Owner: "C", Prio: 30, Frag: "fd"}}, End: "cancel"}},
 	}
 }
 
@@ -127,6 +130,21 @@ func runC07() int {
 	}
 	var jobs []job
 	for _, sc := range c07Scenarios() {
+		if sc.Test.End == "cancel" {
+			// the request under test is the cancellation: only the calls made after the TransactionSet returned are
+			// failed (the Set part is what the other scenarios cover), with an error (a restart loses the open transaction)
+			setOnly := sc
+			setOnly.Test.End = "none"
+			w, _, _, _, setCalls, err := runOne(nil, setOnly, -1, "none", wc0)
+			if err != nil {
+				return fail(err)
+			}
+			w.Close()
+			for k := len(setCalls); k < len(refs[sc.Name].calls); k++ {
+				jobs = append(jobs, job{sc, k, "error"})
+			}
+			continue
+		}
 		for k := range refs[sc.Name].calls {
 			jobs = append(jobs, job{sc, k, "error"}, job{sc, k, "restart"})
 		}
@@ -162,7 +180,11 @@ func runC07() int {
 					add("panic", "TransactionSet panicked under the fault: "+out.Panic)
 				}
 				// (i) the device rejects or cannot receive the change
-				if callKind == "target.Set" && j.kind == "error" {
+				if j.sc.Test.End == "cancel" {
+					if callKind == "target.Set" && out.EndErr == nil {
+						add("device-error-not-returned", "the device failed the Set of the rollback but TransactionCancel returned no error")
+					}
+				} else if callKind == "target.Set" && j.kind == "error" {
 					if out.Err == nil {
 						add("device-error-not-returned", "the device failed the Set but TransactionSet returned no error")
 					}
@@ -177,6 +199,31 @@ func runC07() int {
 					}
 				}
 				// (ii) retry once the fault is gone
+				if j.sc.Test.End == "cancel" && j.kind == "error" && out.Err == nil && !out.HasIntentErrors && out.ConvErr == nil && out.EndErr != nil {
+					// the transaction was applied and the fault hit its cancellation: the cancellation is what is repeated
+					if err := w.RetryEnd(out, j.sc.Test); err != nil {
+						add("retry-refused", fmt.Sprintf("repeating the cancellation after the fault was refused: %v (first attempt: %v)", err, out.EndErr))
+					} else if fin, err := w.Snapshot(); err != nil {
+						add("stores-unreadable", err.Error())
+					} else {
+						if fin.IntendedKey() != r.final.IntendedKey() {
+							add("retry-intended-differs", "intent store after the repeated cancellation differs from the fault-free run:\nfault-free:\n"+r.final.IntendedKey()+"after retry:\n"+fin.IntendedKey())
+						}
+						if d := diffMaps(r.final.Device, fin.Device); d != "" {
+							add("retry-device-differs", "device after the repeated cancellation differs from the fault-free run: "+d)
+						}
+						if id, _ := w.DS.VerifOpenTransaction(); id != "" {
+							add("locked-after-retry", "transaction "+id+" is still registered after the repeated cancellation")
+						}
+					}
+					w.Close()
+					mu.Lock()
+					evals++
+					kindsSeen[j.kind+":"+callKind+":in-cancel"]++
+					distinct[fmt.Sprintf("%s|%s|%s|cancel", j.sc.Name, j.kind, callKind)] = true
+					mu.Unlock()
+					continue
+				}
 				out2 := w.Apply(j.sc.Test)
 				if out2.Rejected() {
 					add("retry-refused", fmt.Sprintf("repeating the request after the fault was refused: err=%v conv=%v intentErrors=%v panic=%q", out2.Err, out2.ConvErr, intentErrors(out2), out2.Panic))
